@@ -1,4 +1,178 @@
+/-
+Property C15 — rational, infinitesimal and linear-expression arithmetic is exact.
+
+Statements only (helper lemmas live in OratioProofs/Lemmas).  `R`, `IR`, `Lin` are the
+models of `smt::rational`, `smt::inf_rational`, `smt::lin`, one function per C++ overload.
+`R.WF` is canonical form, `R.toE` the extended rational a canonical value denotes, `ERat.add`
+/ `ERat.mul` are partial exactly where mathematics leaves the operation undefined, and the
+`…Defined` hypotheses are exactly the operand combinations the C++ rejects by `assert`.
+-/
 import OratioModel
+import OratioProofs.Lemmas.Rational
+import OratioProofs.Lemmas.InfRational
+import OratioProofs.Lemmas.Lin
+
 namespace Oratio
-theorem C15_placeholder : R.zero.WF := by decide
+open R
+
+/-! ## rational: constructor -/
+
+/-- `rational(n, d)` is canonical and denotes `n/d` (`±∞` for `d = 0`), for every input
+    except the invalid `0/0`: negative and non-reduced inputs included. -/
+theorem C15_mk2_canonical (n d : Int) (h : ¬ (n = 0 ∧ d = 0)) :
+    (mk2 n d).WF ∧
+    (mk2 n d).toE = (if d = 0 then (if n > 0 then ERat.pinf else ERat.ninf) else ERat.fin ((n : Rat) / (d : Rat))) := by
+  exact R.mk2_spec n d h
+
+/-- a canonical value is determined by what it denotes (so "canonical" means unique) -/
+theorem C15_canonical_unique (a b : R) (ha : a.WF) (hb : b.WF) (h : a.toE = b.toE) : a = b := by
+  exact R.WF_unique ha hb h
+
+/-! ## rational: comparisons form the total order of the denoted values, infinities included -/
+
+theorem C15_le_iff (a b : R) (ha : a.WF) (hb : b.WF) : R.le a b = ERat.le a.toE b.toE := by exact R.le_spec ha hb
+theorem C15_lt_iff (a b : R) (ha : a.WF) (hb : b.WF) : R.lt a b = ERat.lt a.toE b.toE := by exact R.lt_spec ha hb
+theorem C15_ge_iff (a b : R) (ha : a.WF) (hb : b.WF) : R.ge a b = ERat.le b.toE a.toE := by exact R.ge_spec ha hb
+theorem C15_gt_iff (a b : R) (ha : a.WF) (hb : b.WF) : R.gt a b = ERat.lt b.toE a.toE := by exact R.gt_spec ha hb
+theorem C15_eq_iff (a b : R) (ha : a.WF) (hb : b.WF) : R.eq a b = decide (a.toE = b.toE) := by exact R.eq_spec ha hb
+theorem C15_ne_iff (a b : R) (ha : a.WF) (hb : b.WF) : R.ne a b = !decide (a.toE = b.toE) := by exact R.ne_spec ha hb
+
+/-- the mixed rational/integer comparisons agree with comparing against `rational(i)` -/
+theorem C15_cmpI_iff (a : R) (i : Int) (ha : a.WF) :
+    R.leI a i = ERat.le a.toE (ofInt i).toE ∧ R.ltI a i = ERat.lt a.toE (ofInt i).toE ∧
+    R.geI a i = ERat.le (ofInt i).toE a.toE ∧ R.gtI a i = ERat.lt (ofInt i).toE a.toE ∧
+    R.eqI a i = decide (a.toE = (ofInt i).toE) ∧ R.neI a i = !decide (a.toE = (ofInt i).toE) := by
+  exact R.cmpI_spec a i ha
+
+/-- `ERat.le` is a total order (reflexive, transitive, antisymmetric, total) -/
+theorem C15_order_total (x y z : ERat) :
+    ERat.le x x = true ∧ (ERat.le x y = true → ERat.le y z = true → ERat.le x z = true) ∧
+    (ERat.le x y = true → ERat.le y x = true → x = y) ∧ (ERat.le x y = true ∨ ERat.le y x = true) := by
+  exact R.ERat.le_total_order x y z
+
+/-! ## rational: arithmetic is exact and canonical -/
+
+theorem C15_neg_exact (a : R) (ha : a.WF) : (neg a).WF ∧ (neg a).toE = ERat.neg a.toE := by exact R.neg_spec ha
+
+theorem C15_add_exact (a b : R) (ha : a.WF) (hb : b.WF) (hd : addDefined a b) :
+    (add a b).WF ∧ ERat.add a.toE b.toE = some (add a b).toE := by exact R.add_spec ha hb hd
+
+theorem C15_sub_exact (a b : R) (ha : a.WF) (hb : b.WF) (hd : addDefined a (neg b)) :
+    (sub a b).WF ∧ ERat.add a.toE (ERat.neg b.toE) = some (sub a b).toE := by exact R.sub_spec ha hb hd
+
+theorem C15_mul_exact (a b : R) (ha : a.WF) (hb : b.WF) (hd : mulDefined a b) :
+    (mul a b).WF ∧ ERat.mul a.toE b.toE = some (mul a b).toE := by exact R.mul_spec ha hb hd
+
+/-- division is multiplication by the reciprocal, with the code's convention `1/0 = +∞`,
+    `1/±∞ = 0` (`ERat.inv`) -/
+theorem C15_div_exact (a b : R) (ha : a.WF) (hb : b.WF) (hd : divDefined a b) :
+    (div a b).WF ∧ ERat.mul a.toE (ERat.inv b.toE) = some (div a b).toE := by exact R.div_spec ha hb hd
+
+/-- on finite operands with a non-zero divisor this is the ordinary quotient -/
+theorem C15_div_finite (a b : R) (ha : a.WF) (hb : b.WF) (fa : a.den ≠ 0) (fb : b.den ≠ 0) (nz : b.num ≠ 0) :
+    (div a b).WF ∧ (div a b).toE = ERat.fin (a.toRat / b.toRat) := by exact R.div_finite ha hb fa fb nz
+
+/-- every other operator form computes the same canonical value as the binary one:
+    compound assignment, mixed rational/integer, integer on the left -/
+theorem C15_forms_agree (a b : R) (i : Int) (ha : a.WF) (hb : b.WF) :
+    (addDefined a b → addAssign a b = add a b) ∧
+    (addDefined a (neg b) → subAssign a b = sub a b) ∧
+    (mulDefined a b → mulAssign a b = mul a b) ∧
+    (divDefined a b → divAssign a b = div a b) ∧
+    addI a i = add a (ofInt i) ∧ subI a i = sub a (ofInt i) ∧
+    (mulDefined a (ofInt i) → mulI a i = mul a (ofInt i)) ∧
+    (divDefined a (ofInt i) → divI a i = div a (ofInt i)) ∧
+    addAssignI a i = add a (ofInt i) ∧ subAssignI a i = sub a (ofInt i) ∧
+    (mulDefined a (ofInt i) → mulAssignI a i = mul a (ofInt i)) ∧
+    (divDefined a (ofInt i) → divAssignI a i = div a (ofInt i)) ∧
+    iAdd i b = add (ofInt i) b ∧ iSub i b = sub (ofInt i) b ∧ iMul i b = mul (ofInt i) b ∧ iDiv i b = div (ofInt i) b := by
+  exact R.forms_agree a b i ha hb
+
+/-! ## inf_rational: lexicographic order, component-wise arithmetic -/
+
+/-- lexicographic comparison of (rational part, infinitesimal part) -/
+def lexLe (a b : ERat × ERat) : Bool := ERat.lt a.1 b.1 || (decide (a.1 = b.1) && ERat.le a.2 b.2)
+def lexLt (a b : ERat × ERat) : Bool := ERat.lt a.1 b.1 || (decide (a.1 = b.1) && ERat.lt a.2 b.2)
+
+theorem C15_inf_lex_order (a b : IR) (ha : a.WF) (hb : b.WF) :
+    IR.le a b = lexLe (a.rat.toE, a.inf.toE) (b.rat.toE, b.inf.toE) ∧
+    IR.lt a b = lexLt (a.rat.toE, a.inf.toE) (b.rat.toE, b.inf.toE) ∧
+    IR.ge a b = lexLe (b.rat.toE, b.inf.toE) (a.rat.toE, a.inf.toE) ∧
+    IR.gt a b = lexLt (b.rat.toE, b.inf.toE) (a.rat.toE, a.inf.toE) ∧
+    IR.eq a b = decide ((a.rat.toE, a.inf.toE) = (b.rat.toE, b.inf.toE)) ∧
+    IR.ne a b = !decide ((a.rat.toE, a.inf.toE) = (b.rat.toE, b.inf.toE)) := by
+  exact IR.lex_spec a b ha hb
+
+/-- comparison with a rational or an integer is comparison with `(r, 0)` -/
+theorem C15_inf_cmp_scalar (a : IR) (r : R) (i : Int) (ha : a.WF) (hr : r.WF) :
+    IR.leR a r = IR.le a (IR.ofR r) ∧ IR.ltR a r = IR.lt a (IR.ofR r) ∧ IR.geR a r = IR.ge a (IR.ofR r) ∧
+    IR.gtR a r = IR.gt a (IR.ofR r) ∧ IR.eqR a r = IR.eq a (IR.ofR r) ∧ IR.neR a r = IR.ne a (IR.ofR r) ∧
+    IR.leI a i = IR.le a (IR.ofInt i) ∧ IR.ltI a i = IR.lt a (IR.ofInt i) ∧ IR.geI a i = IR.ge a (IR.ofInt i) ∧
+    IR.gtI a i = IR.gt a (IR.ofInt i) ∧ IR.eqI a i = IR.eq a (IR.ofInt i) ∧ IR.neI a i = IR.ne a (IR.ofInt i) := by
+  have _hr := hr
+  exact IR.cmp_scalar a r i ha
+
+/-- `+`, `-`, unary minus act on both components; a scalar acts on the rational part only
+    for `+`/`-` and on both for `*`//`; in particular `s - (r + i·ε) = (s - r) - i·ε`. -/
+theorem C15_inf_arith_componentwise (a b : IR) (r : R) :
+    IR.add a b = ⟨R.add a.rat b.rat, R.add a.inf b.inf⟩ ∧ IR.sub a b = ⟨R.sub a.rat b.rat, R.sub a.inf b.inf⟩ ∧
+    IR.neg a = ⟨R.neg a.rat, R.neg a.inf⟩ ∧
+    IR.addR a r = ⟨R.add a.rat r, a.inf⟩ ∧ IR.subR a r = ⟨R.sub a.rat r, a.inf⟩ ∧
+    IR.mulR a r = ⟨R.mul a.rat r, R.mul a.inf r⟩ ∧ IR.divR a r = ⟨R.div a.rat r, R.div a.inf r⟩ ∧
+    IR.rAdd r a = ⟨R.add r a.rat, a.inf⟩ ∧ IR.rSub r a = ⟨R.sub r a.rat, R.neg a.inf⟩ ∧
+    IR.rMul r a = ⟨R.mul r a.rat, R.mul r a.inf⟩ := by
+  exact ⟨rfl, rfl, rfl, rfl, rfl, rfl, rfl, rfl, rfl, rfl⟩
+
+/-! ## lin: operators act coefficient-wise on every variable and on the known term -/
+
+/-- the value of a (finite) linear expression under a valuation of its variables -/
+def Lin.eval (l : Lin) (σ : Nat → Rat) : Rat := (l.vars.map (fun t => t.2.toRat * σ t.1)).sum + l.known.toRat
+
+theorem C15_lin_eval_coeff (l : Lin) (hl : l.WF) (σ τ : Nat → Rat) (h : ∀ v, (l.coeff v).toRat ≠ 0 → σ v = τ v) :
+    Lin.eval l σ = Lin.eval l τ := by exact Lin.eval_coeff_spec l hl σ τ h
+
+theorem C15_lin_add (l r : Lin) (hl : l.WF) (hr : r.WF) :
+    (Lin.add l r).WF ∧ (∀ v, ((Lin.add l r).coeff v).toRat = (l.coeff v).toRat + (r.coeff v).toRat) ∧
+    (Lin.add l r).known.toRat = l.known.toRat + r.known.toRat ∧
+    (∀ σ, Lin.eval (Lin.add l r) σ = Lin.eval l σ + Lin.eval r σ) ∧ Lin.addAssign l r = Lin.add l r := by exact Lin.add_spec l r hl hr
+
+theorem C15_lin_sub (l r : Lin) (hl : l.WF) (hr : r.WF) :
+    (Lin.sub l r).WF ∧ (∀ v, ((Lin.sub l r).coeff v).toRat = (l.coeff v).toRat - (r.coeff v).toRat) ∧
+    (Lin.sub l r).known.toRat = l.known.toRat - r.known.toRat ∧
+    (∀ σ, Lin.eval (Lin.sub l r) σ = Lin.eval l σ - Lin.eval r σ) ∧ Lin.subAssign l r = Lin.sub l r := by exact Lin.sub_spec l r hl hr
+
+theorem C15_lin_neg (l : Lin) (hl : l.WF) :
+    (Lin.neg l).WF ∧ (∀ v, ((Lin.neg l).coeff v).toRat = - (l.coeff v).toRat) ∧
+    (Lin.neg l).known.toRat = - l.known.toRat ∧ (∀ σ, Lin.eval (Lin.neg l) σ = - Lin.eval l σ) := by exact Lin.neg_spec l hl
+
+theorem C15_lin_scalar_add (l : Lin) (c : R) (hl : l.WF) (hc : c.WF) (fc : c.den ≠ 0) :
+    (Lin.addR l c).WF ∧ (∀ σ, Lin.eval (Lin.addR l c) σ = Lin.eval l σ + c.toRat) ∧
+    (∀ v, (Lin.addR l c).coeff v = l.coeff v) ∧
+    Lin.rAdd c l = Lin.addR l c ∧ Lin.addAssignR l c = Lin.addR l c ∧
+    (Lin.subR l c).WF ∧ (∀ σ, Lin.eval (Lin.subR l c) σ = Lin.eval l σ - c.toRat) ∧
+    (∀ v, (Lin.subR l c).coeff v = l.coeff v) ∧ Lin.subAssignR l c = Lin.subR l c ∧
+    (Lin.rSub c l).WF ∧ (∀ σ, Lin.eval (Lin.rSub c l) σ = c.toRat - Lin.eval l σ) := by exact Lin.scalar_add_spec l c hl hc fc
+
+theorem C15_lin_scalar_mul (l : Lin) (c : R) (hl : l.WF) (hc : c.WF) (fc : c.den ≠ 0) :
+    (Lin.mulR l c).WF ∧ (∀ v, ((Lin.mulR l c).coeff v).toRat = (l.coeff v).toRat * c.toRat) ∧
+    (Lin.mulR l c).known.toRat = l.known.toRat * c.toRat ∧
+    (∀ σ, Lin.eval (Lin.mulR l c) σ = Lin.eval l σ * c.toRat) ∧ Lin.rMul c l = Lin.mulR l c ∧
+    (Lin.mulAssignR l c).WF ∧ (∀ v, ((Lin.mulAssignR l c).coeff v).toRat = (l.coeff v).toRat * c.toRat) ∧
+    (Lin.mulAssignR l c).known.toRat = l.known.toRat * c.toRat ∧
+    (∀ σ, Lin.eval (Lin.mulAssignR l c) σ = Lin.eval l σ * c.toRat) := by exact Lin.scalar_mul_spec l c hl hc fc
+
+theorem C15_lin_scalar_div (l : Lin) (c : R) (hl : l.WF) (hc : c.WF) (fc : c.den ≠ 0) (nz : c.num ≠ 0) :
+    (Lin.divR l c).WF ∧ (∀ v, ((Lin.divR l c).coeff v).toRat = (l.coeff v).toRat / c.toRat) ∧
+    (Lin.divR l c).known.toRat = l.known.toRat / c.toRat ∧
+    (∀ σ, Lin.eval (Lin.divR l c) σ = Lin.eval l σ / c.toRat) ∧ Lin.divAssignR l c = Lin.divR l c := by exact Lin.scalar_div_spec l c hl hc fc nz
+
+/-! ## non-vacuity: the hypotheses are met by concrete non-trivial values -/
+
+example : (mk2 6 (-4)).WF ∧ (mk2 6 (-4)) = ⟨-3, 2⟩ := by decide
+example : (⟨1, 2⟩ : R).WF ∧ (⟨-5, 3⟩ : R).WF ∧ addDefined ⟨1, 2⟩ ⟨-5, 3⟩ ∧ add ⟨1, 2⟩ ⟨-5, 3⟩ = ⟨-7, 6⟩ := by decide
+example : pinf.WF ∧ ninf.WF ∧ R.le pinf ninf = false ∧ R.ge ninf pinf = false ∧ mulDefined pinf ⟨-1, 2⟩ := by decide
+example : (⟨[(1, ⟨1, 2⟩), (3, ⟨-2, 1⟩)], ⟨3, 1⟩⟩ : Lin).WF := by
+  refine ⟨⟨by decide, trivial⟩, ?_, by decide, by decide⟩
+  intro t ht; simp at ht; rcases ht with rfl | rfl <;> decide
+
 end Oratio
